@@ -92,6 +92,7 @@ theorem step_setOut {xf xi d} : StepS xf xi d a (a.setOut id n) where
   unl := fun _ q hm _ => ⟨q, hm, fun _ hx => hx⟩
   orphan := fun _ _ _ hn => hn
   debtAlive := fun _ ha _ => active_setOut.mpr ha
+  prog := ProgS.of_same (fun _ h => h) rfl rfl rfl rfl rfl
 
 /-- the debt invariant after the record of `id` was updated: every other record is untouched -/
 theorem debt_setOut {x d d'} (hd : DebtOk none d a) (hf : ∀ i, a.nextClient ≤ i → d' i = 0)
@@ -149,6 +150,7 @@ theorem step_dropClient {xf xi d} (hz : d id = 0) : StepS xf xi d a (a.dropClien
     simp only [bne_iff_ne, ne_eq]
     intro he
     rw [← hi, he, hz] at hpos; omega
+  prog := ProgS.of_same (fun _ h => h) rfl rfl rfl rfl rfl
 
 end
 
@@ -215,6 +217,7 @@ theorem step_addClient {xf xi d} : StepS xf xi d a (a.addClient e) where
   debtAlive := fun i ha _ => by
     obtain ⟨c, hc, hi, hp⟩ := ha
     exact ⟨c, List.mem_append.mpr (Or.inl hc), hi, hp⟩
+  prog := ProgS.of_same (fun _ h => h) rfl rfl rfl rfl rfl
 
 theorem debt_addClient {x d d'} (h : WfS a none) (hd : DebtOk none d a) (hid : e.id = a.nextClient)
     (hother : ∀ i, i ≠ e.id → d' i = d i) (hf : ∀ i, a.nextClient + 1 ≤ i → d' i = 0)
